@@ -7,9 +7,9 @@ static : every column-name list of width <= 3 (quick) / <= 4 (thorough) over an 
          look-alikes a__1 / col1_, method names sum / T / cols / 'column names', keyword, digit
          prefix, '_', '', None, non-ASCII, non-str 0).
 hist   : every rename / replace / append history of length <= 2 on every base table of width
-         <= 2 (quick) / <= 3 over a 7-name (thorough: 8) sub-alphabet, new names from a 5-name
-         (thorough: 6) sub-alphabet; operations: t.rename_column, rename through a live column
-         view, t.<accessor> = values, t >> named vector.
+         <= 2 over a 3-name (thorough: 5) sub-alphabet, new names from a 3-name (thorough: 5)
+         sub-alphabet; operations: t.rename_column, rename through a live column view
+         (c = t['a']; c.name = 'z'), t.<accessor> = values, t >> named vector.
 
 Oracle (from the statement only): a plain list of stored names is the model; the advertised
 accessor set is whatever dir(t) adds over dir(Table()); it has to be a set of distinct valid
@@ -31,10 +31,10 @@ from harness import *  # noqa
 
 ALPHABET = ['a', 'A', 'a b', 'a_b', 'a__1', 'a__2', 'sum', 'T', 'col1_', '1a', '_', '', None, 'é', 'class',
             'cols', 'column names', 0]
-HIST_BASE = {'quick': ['a', 'A', 'a b', 'a__1', 'sum', None, 'cols'],
-             'thorough': ['a', 'A', 'a b', 'a__1', 'sum', None, 'cols', 0]}
-HIST_NEW = {'quick': ['z', 'a', 'sum', 'a__1', None],
-            'thorough': ['z', 'a', 'sum', 'a__1', None, 'cols']}
+HIST_BASE = {'quick': ['a', 'sum', None],
+             'thorough': ['a', 'A b', 'a__1', 'sum', None]}
+HIST_NEW = {'quick': ['z', 'a', None],
+            'thorough': ['z', 'a', 'sum', 'a__1', None]}
 
 EMPTY_DIR = set(dir(Table()))
 PUBLIC = {n for n in set(dir(Vector)) | set(dir(Table)) if not n.startswith('_')}
@@ -270,9 +270,9 @@ def check(make, label):
             if not any(f['key'].startswith('C17:getattr:advertised-unresolved') and repr(n) in f['what'] for f in fails):
                 F('C17:getattr-after-dir:unresolved', f'after dir(t), t.{n} raises {type(e).__name__}: {e}', 'column', type(e).__name__)
 
-    # -- row attribute access on a fresh replica ------------------------------------------------
+    # -- row attribute access + string indexing on one fresh replica (both are reads) ----------
+    t4, _ = make()
     for n, i in sorted(pos.items()):
-        t4, _ = make()
         want = t4.cols()[i][0]
         try:
             got = getattr(t4[0], n)
@@ -280,55 +280,67 @@ def check(make, label):
                 F('C17:row-attr:wrong-column', f't[0].{n} gives {got!r}, column {i} holds {want!r}', want, got)
         except Exception as e:
             F('C17:row-attr:unresolved', f't[0].{n} raises {type(e).__name__}: {e}', want, type(e).__name__)
-
-    # -- accessor as column key in item assignment on a fresh replica ---------------------------
-    for n, i in sorted(pos.items()):
-        t5, _ = make()
-        before = [list(c) for c in t5.cols()]
-        try:
-            t5[0, n] = 99
-        except Exception as e:
-            F('C17:setitem-key:unresolved', f't[0, {n!r}] = 99 raises {type(e).__name__}: {e}', 'accepted', type(e).__name__)
-            continue
-        after = [list(c) for c in t5.cols()]
-        exp = [list(c) for c in before]
-        exp[i][0] = 99
-        if after != exp:
-            F('C17:setitem-key:wrong-column', f't[0, {n!r}] = 99 changed {after} (column {i} expected)', exp, after)
-        m = truthful(t5)
-        if m:
-            F('C03:Table.setitem:truthful', m)
-
-    # -- string indexing by stored name: first occurrence ---------------------------------------
-    t6, _ = make()
     seen = set()
     for i, s in enumerate(model):
         if not isinstance(s, str) or s in seen:
             continue
         seen.add(s)
         try:
-            c = t6[s]
-            idx = [j for j, x in enumerate(t6.cols()) if x is c]
+            c = t4[s]
+            idx = [j for j, x in enumerate(t4.cols()) if x is c]
             if idx != [i]:
                 F('C17:getitem-name:not-first-occurrence', f't[{s!r}] resolves to column {idx}, first occurrence is {i}', i, idx)
         except Exception as e:
             F('C17:getitem-name:raises', f't[{s!r}] raises {type(e).__name__}: {e}', i, type(e).__name__)
 
+    # -- accessor as column key in item assignment on a fresh replica ---------------------------
+    t5, _ = make()
+    exp = [list(c) for c in t5.cols()]
+    for k, (n, i) in enumerate(sorted(pos.items())):
+        val = 900 + k
+        try:
+            t5[0, n] = val
+        except AliasError as e:
+            # is the write itself refused, whatever key addresses the column?  then it is C15's business
+            # (spurious refusal; allocation dependent on this tree), not a naming failure
+            try:
+                t5[0, i] = val
+                F('C17:setitem-key:unresolved', f't[0, {n!r}] = {val} raises AliasError but t[0, {i}] = {val} is accepted', 'accepted', 'AliasError')
+            except AliasError:
+                F('C15:Table.setitem:spurious-alias-error', f't[0, {i}] = {val} on a table nobody else shares raises AliasError: {e}',
+                  'accepted', 'AliasError')
+            except Exception:
+                pass
+            break
+        except Exception as e:
+            F('C17:setitem-key:unresolved', f't[0, {n!r}] = {val} raises {type(e).__name__}: {e}', 'accepted', type(e).__name__)
+            continue
+        exp2 = [list(c) for c in exp]
+        exp2[i][0] = val
+        after = [list(c) for c in t5.cols()]
+        if after != exp2:
+            F('C17:setitem-key:wrong-column', f't[0, {n!r}] = {val} turned {exp} into {after} (column {i} expected)', exp2, after)
+        exp = after
+    m = truthful(t5)
+    if m:
+        F('C03:Table.setitem:truthful', m)
+
     # -- dot row of repr ----------------------------------------------------------------------
-    t7, _ = make()
     try:
-        r = repr(t7)
+        r = repr(t3)
     except Exception:
         r = None                      # totality of repr is C20's business
     if r is not None and ncols and len(by_pos) == ncols:
         lines = r.split('\n')
-        header = lines[:max(0, len(lines) - (len(t7) + 2))]
+        header = lines[:max(0, len(lines) - (len(t3) + 2))]
         for ln in header:
             toks = ln.split()
             if toks and all(tk.startswith('.') and len(tk) > 1 for tk in toks):
                 want = ['.' + by_pos[i] for i in range(ncols)]
                 if toks != want:
-                    F('C17:repr-dot-row:mismatch', f'dot row {toks} differs from the advertised accessors {want}', want, toks)
+                    bad = [i for i in range(min(len(toks), ncols)) if toks[i] != want[i]]
+                    sub = ':non-str-name' if len(toks) == ncols and all(not isinstance(model[i], str) and model[i] is not None for i in bad) else ''
+                    F('C17:repr-dot-row:mismatch' + sub, f'dot row {toks} differs from the advertised accessors {want}', want, toks)
                 break
     return fails
 
@@ -359,14 +371,12 @@ def cases(tier, seed):
         for combo in itertools.product(ALPHABET, repeat=w):
             yield {'op': 'static', 'names': lit(list(combo))}
     hb, hn = HIST_BASE[tier if tier in HIST_BASE else 'thorough'], HIST_NEW[tier if tier in HIST_NEW else 'thorough']
-    hw = 2 if tier == 'quick' else 3
+    hw = 2
     for w in range(1, hw + 1):
         for combo in itertools.product(hb, repeat=w):
             for op1 in ops_for(w, hn):
                 yield {'op': 'hist', 'names': lit(list(combo)), 'hist': lit([op1])}
                 w2 = w + 1 if op1[0] == 'ap' else w
-                if tier != 'quick' and w == 3:
-                    continue                       # width-3 bases: single-step histories only
                 for op2 in ops_for(w2, hn):
                     yield {'op': 'hist', 'names': lit(list(combo)), 'hist': lit([op1, op2])}
 
@@ -398,7 +408,7 @@ def evaluate(case):
     last = hist[-1][0]
     out = []
     for f in hf:
-        if f['key'] in sk or f['key'].startswith('C03:'):
+        if f['key'] in sk or not f['key'].startswith('C17:'):
             out.append(f)
         else:
             f['key'] = f['key'] + ':after-' + OPNAME[last]
@@ -436,7 +446,7 @@ if __name__ == '__main__':
               'each observation channel (dir, getattr, dir-then-getattr, row attribute, item-assignment key, t[stored], repr dot '
               'row, column_names) on a fresh replica; distinct = (per-column sanitisation class pattern, op kinds)',
          bound=lambda tier: {'static_width': 3 if tier == 'quick' else 4, 'alphabet': len(ALPHABET),
-                             'hist_base_width': 2 if tier == 'quick' else 3, 'hist_len': 2,
+                             'hist_base_width': 2, 'hist_len': 2,
                              'hist_alphabet': len(HIST_BASE['quick' if tier == 'quick' else 'thorough']),
                              'new_names': len(HIST_NEW['quick' if tier == 'quick' else 'thorough'])},
          nontrivial=nontrivial)
